@@ -67,8 +67,21 @@ fn unhex(t: &str) -> Option<Vec<u8>> {
 
 pub fn eval(line: &str) -> String {
     let t: Vec<&str> = line.split(' ').filter(|s| !s.is_empty()).collect();
+    eval_tokens(&t, None)
+}
+
+/// `shared`: verify on this handler instead of a fresh one (it must have been built from the line's keys).
+fn eval_tokens(t: &[&str], shared: Option<&StandardCupv2Handler>) -> String {
     let bad = || "bad-op".to_string();
-    match t.as_slice() {
+    match t {
+        // `warm <verify line A> <verify line B>` (same key set): A, then B, on ONE handler instance; the answer is B's.
+        // Verification is a function of its arguments: what a handler verified before must not matter.
+        ["warm", a @ .., ] if a.len() == 14 && a[1] == a[8] => {
+            let keys = match parse_keys(a[1]) { Some(k) => k, None => return bad() };
+            let handler = StandardCupv2Handler::new(&keys);
+            let _ = eval_tokens(&a[..7], Some(&handler));
+            eval_tokens(&a[7..], Some(&handler))
+        }
         [op @ ("verify" | "verifysig"), keys, kid, nonce, req, resp, last] => {
             let (keys, kid, nonce, req, resp) = match (
                 parse_keys(keys), kid.parse::<u64>().ok(), unhex(nonce), unhex(req), unhex(resp),
@@ -77,7 +90,8 @@ pub fn eval(line: &str) -> String {
                 _ => return bad(),
             };
             let nonce: [u8; 32] = match nonce.try_into() { Ok(n) => n, Err(_) => return bad() };
-            let handler = StandardCupv2Handler::new(&keys);
+            let fresh;
+            let handler: &StandardCupv2Handler = match shared { Some(h) => h, None => { fresh = StandardCupv2Handler::new(&keys); &fresh } };
             if *op == "verify" {
                 let mut builder = http::Response::builder().status(200);
                 if *last != "absent" {
@@ -330,6 +344,15 @@ pub fn run(o: &Opts, rng: &mut Rng) -> Sink {
             let raw: Option<Vec<u8>> = match raw_override { Some(r) => r, None => Some(enc(rng, text)) };
             if let Some(r) = &raw { if http::HeaderValue::from_bytes(r).is_err() { continue; } }
             let l = line(&q_keys, q_kid, &q_nonce, &q_req, &q_resp, raw.as_deref());
+            if q_keys == keys_tok && rng.chance(1, 3) {
+                // the same attempt on a handler that has just accepted the authentic exchange (or, half the time, the
+                // other way round: the authentic exchange after the forged one)
+                let good = line(&keys_tok, kid, &nonce, &req, &resp, Some(good_text.as_bytes()));
+                let first_good = rng.chance(1, 2);
+                let w = if first_good { format!("warm {} {}", good, l) } else { format!("warm {} {}", l, good) };
+                let encb = raw.as_ref().and_then(|r| r.first().copied()).map(|b| match b { b'"' => "q", b'W' => "w", _ => "p" }).unwrap_or("-");
+                push(&mut sink, w, format!("warm-{}/{}/{}", if first_good { "after-authentic" } else { "then-authentic" }, tag, encb), &format!("warm-{}", tag));
+            }
             // class: mutation kind x first byte of the raw header (encoding)
             let encb = raw.as_ref().and_then(|r| r.first().copied()).map(|b| match b { b'"' => "q", b'W' => "w", _ => "p" }).unwrap_or("-");
             push(&mut sink, l, format!("{}/{}", tag, encb), &tag);
